@@ -7,19 +7,17 @@ F = {
     "F3b": "F3b-neg-of-minus-leading-sstring",
     "F5": "F5-template-strength-dishonest",
     "F16": "F16-generic-div-f-integer",
-    "N5": "C02-N5-sqlite-like-pattern-hole",
     "N7": "C02-N7-concat-operands-unparenthesised",
     # repaired in /repo (status "fixed"): only used by the directed replays, which must NOT reproduce them
     "F17": "F17-timestamp-literal-text-compare",
     "N1": "C02-N1-regex-op-undocumented",
     "N3": "C02-N3-regexp-strength",
     "N4": "C02-N4-bigquery-degrees-hole",
+    "N5": "C02-N5-sqlite-like-pattern-hole",
     "N6": "C02-N6-like-templates-unparenthesised",
 }
 
 DISHONEST = {"tmpl:div_i", "tmpl:math.log"}
-# C02-N5: the sqlite LIKE templates whose pattern hole (site 1) sits next to `||` with required strength 0
-PATTERN_HOLE = {"tmpl:text.starts_with", "tmpl:text.contains", "tmpl:text.ends_with"}
 
 
 def triple_class(tr, dialect=None):
@@ -28,8 +26,6 @@ def triple_class(tr, dialect=None):
     p, site, c = tr
     if c in DISHONEST:
         return F["F5"]
-    if dialect == "sqlite" and p in PATTERN_HOLE and site == 1:
-        return F["N5"]
     return None
 
 
